@@ -64,9 +64,26 @@ def resolve(lib):
     def params(p):
         return [x.get('ty', '') if isinstance(x, dict) else str(x) for x in fns[p].get('params', [])]
 
-    # the tridiagonal solver: (k: mutable view, three 1-D coefficient arrays, rhs: lane array)
-    th = [p for p in reach if len(params(p)) == 5 and 'ViewRepr<&mut ' in params(p)[0]
-          and all(_is_arr(t, dim1=True) for t in params(p)[1:4]) and _is_arr(params(p)[4], dim1=False)]
+    # the tridiagonal solver: k (a mutable lane view) first, rhs (a lane array) last, and in between exactly three 1-D coefficient
+    # arrays - passed one by one or as the fields of a private struct
+    adts = {a['path']: a for a in lib.f.get('adts', [])}
+
+    def coeff_arrays(ty):
+        t = strip_generics(ty.lstrip('&').replace('mut ', '', 1).strip())
+        if _is_arr(ty, dim1=True):
+            return 1
+        a = adts.get(t)
+        if a and a.get('kind') == 'Struct' and a.get('variants'):
+            return sum(1 for f_ in a['variants'][0]['fields'] if _is_arr(f_['ty'], dim1=True))
+        return None
+
+    def is_solver(p):
+        ps = params(p)
+        if len(ps) < 3 or 'ViewRepr<&mut ' not in ps[0] or not _is_arr(ps[-1], dim1=False):
+            return False
+        mids = [coeff_arrays(t) for t in ps[1:-1]]
+        return all(m is not None for m in mids) and sum(mids) == 3
+    th = [p for p in reach if is_solver(p)]
     if len(th) == 1:
         al['CubicSpline::thomas'] = th[0]
     thomas = al.get('CubicSpline::thomas', 'CubicSpline::thomas')
